@@ -1,5 +1,6 @@
 import DaeVerif.C03.RunProofs
 import DaeVerif.C03.LayoutProofs
+import DaeVerif.C03.Janitor
 /-!
 # C03 — property theorems, part 2: whole runs, the WAN-ingress marking, timeouts, record layout
 
@@ -487,6 +488,131 @@ theorem handoff_full_behaviour (w : World) (s : Skb) (l2 : Bool) (p : Pkt) (d : 
           rw [hpub _ hh hcap]
           exact ⟨by first | rfl | trivial, hh⟩
         · simp [ha] at hf
+
+/-! ## The userspace janitor -/
+
+/-- **The steady-state janitor applies the kernel's own idle timeouts.**  With a common monotone clock,
+a non-aggressive janitor round deletes a TCP entry, or a UDP entry of a tuple without port 53, exactly
+when the kernel itself would treat it as expired at that moment.  Hence it never ends a live tracking:
+an entry that is not past its timeout is still there afterwards. -/
+theorem janitor_respects_idle_timeouts (w : World) (k : Key) (cs : ConnState) (hl : cs.lastSeen ≤ w.now)
+    (hn : w.now < 2 ^ 64) (h4 : k.l4 = IPPROTO_TCP ∨ (k.l4 = IPPROTO_UDP ∧ shortLivedUdp k = false)) :
+    janitorDeletesConn false w.now (k, cs) =
+      (if k.l4 = IPPROTO_TCP then tcpExpired cs w.now else udpExpired cs w.now) ∧
+    (alookup w.conn k = some cs → expiredAt w k = false →
+      alookup (janitor false w.now w).conn k = some cs) := by
+  have hs := sub64_of_le w.now cs.lastSeen hl hn
+  have hdel : janitorDeletesConn false w.now (k, cs) =
+      (if k.l4 = IPPROTO_TCP then tcpExpired cs w.now else udpExpired cs w.now) := by
+    unfold janitorDeletesConn janitorTimeout tcpExpired udpExpired
+    rw [hs]
+    rcases h4 with h | ⟨h, hsl⟩
+    · have hne : ¬ (IPPROTO_TCP = IPPROTO_UDP) := by decide
+      simp only [h, hne, if_false, if_true, Bool.false_eq_true, Nat.div_one]
+      by_cases hst : cs.state = 1
+      · simp only [hst, if_true]
+        exact Bool.eq_iff_iff.mpr (by simp only [decide_eq_true_eq]; omega)
+      · simp only [hst, if_false]
+        exact Bool.eq_iff_iff.mpr (by simp only [decide_eq_true_eq]; omega)
+    · have hne : ¬ (IPPROTO_UDP = IPPROTO_TCP) := by decide
+      have hp : ¬ (k.sport = 53 ∨ k.dport = 53) := by
+        unfold shortLivedUdp at hsl
+        rw [h] at hsl
+        simp only [beq_self_eq_true, Bool.true_and, Bool.or_eq_false_iff, beq_eq_false_iff_ne] at hsl
+        intro hc; rcases hc with hc | hc
+        · exact hsl.2 hc
+        · exact hsl.1 hc
+      simp only [h, hne, hp, if_false, if_true, Bool.false_eq_true, Nat.div_one]
+      exact Bool.eq_iff_iff.mpr (by simp only [decide_eq_true_eq]; omega)
+  refine ⟨hdel, ?_⟩
+  intro hlk hexp
+  unfold janitor
+  simp only
+  rw [alookup_filter_keep w.conn _ k]
+  · exact hlk
+  · intro v hv
+    rw [hlk] at hv; injection hv with hv; subst hv
+    rw [hdel]
+    unfold expiredAt at hexp
+    simp only [hlk] at hexp
+    simp [hexp]
+
+/-- **Under pressure the janitor HALVES every timeout** (an explicit deviation from the kernel's idle
+timeouts, chosen by the control plane when `conn_state_map` is ≥ 70 % full or an overflow was counted):
+an aggressive round deletes an established-TCP or UDP entry idle for more than 60 s and a closing TCP
+entry idle for more than 5 s — entries the kernel still regards as live, so their flows stop being
+tracked early (later TCP packets pass untouched, UDP is re-routed). -/
+theorem aggressive_janitor_halves_timeouts (now : Nat) (k : Key) (cs : ConnState) (hl : cs.lastSeen ≤ now)
+    (h4 : k.l4 = IPPROTO_TCP ∨ (k.l4 = IPPROTO_UDP ∧ shortLivedUdp k = false)) :
+    janitorDeletesConn true now (k, cs) =
+      decide (now - cs.lastSeen >
+        (if k.l4 = IPPROTO_TCP ∧ cs.state = 1 then 5000000000 else 60000000000)) := by
+  unfold janitorDeletesConn janitorTimeout
+  rcases h4 with h | ⟨h, hsl⟩
+  · have hne : ¬ (IPPROTO_TCP = IPPROTO_UDP) := by decide
+    simp only [h, hne, if_false, if_true, true_and]
+    by_cases hst : cs.state = 1
+    · simp only [hst, if_true, TCP_CLOSING_TIMEOUT]
+      exact Bool.eq_iff_iff.mpr (by simp only [decide_eq_true_eq]; omega)
+    · simp only [hst, if_false, TCP_EST_TIMEOUT]
+      exact Bool.eq_iff_iff.mpr (by simp only [decide_eq_true_eq]; omega)
+  · have hne : ¬ (IPPROTO_UDP = IPPROTO_TCP) := by decide
+    have hp : ¬ (k.sport = 53 ∨ k.dport = 53) := by
+      unfold shortLivedUdp at hsl
+      rw [h] at hsl
+      simp only [beq_self_eq_true, Bool.true_and, Bool.or_eq_false_iff, beq_eq_false_iff_ne] at hsl
+      intro hc; rcases hc with hc | hc
+      · exact hsl.2 hc
+      · exact hsl.1 hc
+    simp only [h, hne, hp, if_false, if_true, false_and, UDP_TIMEOUT]
+    exact Bool.eq_iff_iff.mpr (by simp only [decide_eq_true_eq]; omega)
+
+/-- **Stickiness with a control plane that may touch `conn_state_map`** (janitor rounds, deletions of
+other flows' entries, …): `sticky_decision` only needs that the entry of flow `k` ITSELF is as the
+previous frame left it whenever a frame arrives (`KeyKept`) — which a steady-state janitor round
+guarantees for every entry that is not past its idle timeout (`janitor_respects_idle_timeouts`). -/
+theorem sticky_decision_janitor (k : Key) (d : Dec) (h4 : k.l4 = IPPROTO_TCP ∨ k.l4 = IPPROTO_UDP)
+    (hsl : shortLivedUdp k = false) :
+    ∀ (evs : List Event) (w : World), KeyKept k w evs → Tracked w k d → KeepsTracking k w evs →
+      Follows k d w evs ∧ Tracked (run w evs) k d := by
+  intro evs
+  induction evs with
+  | nil => intro w _ ht _; exact ⟨trivial, ht⟩
+  | cons e es ih =>
+    intro w hkept ht hkeep
+    obtain ⟨hk1, hkrest'⟩ := hkept
+    have ht1 : Tracked (e.pre w) k d := by
+      obtain ⟨cs, hl, h⟩ := ht
+      exact ⟨cs, by rw [hk1]; exact hl, h⟩
+    obtain ⟨hk0, hkrest⟩ := hkeep
+    have ht2 : Tracked (e.apply w).1 k d :=
+      tracked_step e.rt (e.pre w) e.hook e.skb e.l2 k d h4 hsl hk0 ht1
+    obtain ⟨ihf, iht⟩ := ih (e.apply w).1 hkrest' ht2 hkrest
+    refine ⟨⟨?_, ihf⟩, iht⟩
+    intro p hp hpk hcap
+    obtain ⟨cs, hl, hr, hw, hd⟩ := ht1
+    subst hpk
+    have hh : e.hook = .lanIngress ∨ e.hook = .wanEgress := by
+      rcases hcap with h | ⟨h, _⟩
+      · exact Or.inl h
+      · exact Or.inr h
+    have hfk : frameKey e.hook e.skb e.l2 = some p.tuples.five := by
+      rcases hh with h | h <;> simp [frameKey, h, hp]
+    obtain ⟨hns, hexp⟩ := hk0 hfk
+    unfold Event.isNewSyn at hns
+    rw [isNewSyn_capture e.hook e.skb e.l2 p hh hp] at hns
+    have hcap' : e.hook = .lanIngress ∨ (e.skb.ingressIf = 0 ∧ (pidIsControlPlane (e.pre w) e.skb).isCp = false) := by
+      rcases hcap with h | ⟨_, h2, h3⟩
+      · exact Or.inl h
+      · exact Or.inr ⟨h2, h3⟩
+    constructor
+    · intro rt'
+      exact ((tracked_capture e.rt rt' (e.pre w) e.hook e.skb e.l2 p cs hh hp h4 hsl hns hexp hl hr hw).2 hcap').1
+    · intro hroom
+      have := ((tracked_capture e.rt e.rt (e.pre w) e.hook e.skb e.l2 p cs hh hp h4 hsl hns hexp hl hr hw).2 hcap').2 hroom
+      unfold Event.fate
+      rw [← hd]
+      exact this
 
 /-! ## Frames the hooks do not route -/
 
